@@ -48,6 +48,10 @@ func runBatch(tier string, seed int64) {
 			})
 		}
 		if conc {
+			stopGC := func() {}
+			if round%2 == 1 { // every other concurrent round runs under a busy collector
+				stopGC = gcStorm()
+			}
 			start := make(chan struct{})
 			var wg sync.WaitGroup
 			for i := 0; i < G; i++ {
@@ -56,6 +60,7 @@ func runBatch(tier string, seed int64) {
 			}
 			close(start)
 			wg.Wait()
+			stopGC()
 		} else {
 			for i := 0; i < G; i++ {
 				one(i)
@@ -71,6 +76,59 @@ func runBatch(tier string, seed int64) {
 				emit(Event{"op": "Check", "in": units(out[i].out), "lang": langField(lang), "err": errRec(out[i].cerr), "valid": out[i].valid, "in_same": true,
 					"gen": true, "conc": true, "cls": cls, "g": i, "panicked": false, "timeout": false})
 			}
+		}
+	}
+	// encode storm: many callers encode their own few entropies over and over while the collector is kept busy
+	// (a loaded server).  One event per distinct observation, with its count: an entropy always encodes to the same
+	// sentence, so every caller normally contributes one event per entropy.
+	emit(Event{"op": "Cut", "source": curSource, "batch_seed": seed, "batch_tier": tier})
+	const SG = 32
+	reps := map[string]int{"quick": 1500, "thorough": 20000}[tier]
+	type obs struct {
+		out string
+		err error
+		n   int
+	}
+	ents := make([][][]byte, SG)
+	langs := make([]int64, SG)
+	seen := make([]map[string]*obs, SG)
+	for gi := range ents {
+		langs[gi] = int64(r.intn(10))
+		seen[gi] = map[string]*obs{}
+		for k := 0; k < 4; k++ {
+			ents[gi] = append(ents[gi], r.bytes(sizes[r.intn(5)]))
+		}
+	}
+	stop := gcStorm()
+	var wg sync.WaitGroup
+	for gi := 0; gi < SG; gi++ {
+		wg.Add(1)
+		go func(gi int) {
+			defer wg.Done()
+			defer func() { recover() }()
+			for i := 0; i < reps; i++ {
+				k := i % 4
+				out, err := bip39.NewMnemonicByEntropy(ents[gi][k], bip39.Language(langs[gi]))
+				key := strconv.Itoa(k) + "/" + out
+				if err != nil {
+					key += "/" + err.Error()
+				}
+				if x := seen[gi][key]; x != nil {
+					x.n++
+				} else {
+					seen[gi][key] = &obs{out, err, 1}
+				}
+			}
+		}(gi)
+	}
+	wg.Wait()
+	stop()
+	for gi := 0; gi < SG; gi++ {
+		for key, x := range seen[gi] {
+			k := int(key[0] - '0')
+			ent := ents[gi][k]
+			emit(Event{"op": "ByEntropy", "ent": ints(ent), "ent_len": len(ent), "ent_nil": false, "lang": langField(langs[gi]), "out": units(x.out),
+				"err": errRec(x.err), "ent_same": true, "conc": true, "cls": "encode-storm", "g": gi, "count": x.n, "panicked": false, "timeout": false})
 		}
 	}
 }
